@@ -2057,6 +2057,31 @@ def rule_R8intonext(text, applied):
     return t
 
 
+def rule_R8find(text, applied):
+    """`X.into_iter().find(|&V| COND)` on a Vec of Copy elements -> the index loop
+    `{ let fv_ = X; let mut fi_: usize = 0; let mut found_ = None; while fi_ < fv_.len() && found_.is_none()
+    { let V = fv_[fi_]; fi_ += 1; if COND { found_ = Some(V); } } found_ }`
+    (Iterator::find: the first element, in order, for which the predicate holds; the predicate is evaluated for the
+    elements up to and including that one only).  The loop invariant comes from the template (`//@loop /while fi_ </`)."""
+    cnt = 0
+    while True:
+        m_text = mask(text)
+        m = re.search(r"((?:\w+\.)*\w+)\s*\.\s*into_iter\(\)\s*\.\s*find\(\s*\|\s*&(\w+)\s*\|", m_text)
+        if not m:
+            break
+        op = m_text.index("(", m_text.index("find", m.start(1) + len(m.group(1))))
+        cp = match_close(m_text, op)
+        cond = text[m.end():cp].strip()
+        v = m.group(2)
+        new = (f"{{ let fv_ = {m.group(1)}; let mut fi_: usize = 0; let mut found_ = None; "
+               f"while fi_ < fv_.len() && found_.is_none() {{ let {v} = fv_[fi_]; fi_ += 1; if {cond} {{ found_ = Some({v}); }} }} found_ }}")
+        text = text[:m.start()] + _keep_newlines(text[m.start():cp + 1], new) + text[cp + 1:]
+        cnt += 1
+    if cnt:
+        applied.append(f"R8findx{cnt}")
+    return text
+
+
 def rule_R20(text, applied):
     """visitor call -> index loop: `RECV.visit_literals(A, B, |x| { BODY });` becomes
     `{ let lits_ = vclause_literals(&RECV, A, B); let mut li_: usize = 0; while li_ < lits_.len() { let x = lits_[li_];
@@ -2189,7 +2214,7 @@ RULES = {
     "R20": rule_R20, "R21": rule_R21, "R7stackrev": rule_R7stackrev, "R7pairs": rule_R7pairs, "R7indexmap": rule_R7indexmap, "R12frozen": rule_R12frozen, "R40": rule_R40, "R39": rule_R39, "R7intoenum": rule_R7intoenum, "substws": rule_substws, "R38": rule_R38, "R9enc": rule_R9enc, "R37": rule_R37, "R36": rule_R36, "R35": rule_R35, "R16oiw": rule_R16oiw, "R9blockon": rule_R9blockon, "R34": rule_R34, "R31": rule_R31, "R30": rule_R30, "R26it": rule_R26it, "R29": rule_R29, "R7own": rule_R7own, "R28": rule_R28, "R27": rule_R27, "R8all": rule_R8all, "R16od": rule_R16od, "R10site": rule_R10site,
     "R1": rule_R1, "R2": rule_R2, "R2ref": rule_R2ref, "R3": rule_R3, "R4": rule_R4, "R5": rule_R5,
     "R8max": rule_R8max, "R8cmpmax": rule_R8cmpmax, "R8resize_none": rule_R8resize_none, "R9": rule_R9, "R8position": rule_R8position, "R8rotate": rule_R8rotate, "R12refcell": rule_R12refcell,
-    "R8slice": rule_R8slice, "R7iter": rule_R7iter, "R8bitget": rule_R8bitget, "R8intonext": rule_R8intonext, "R8rposition": rule_R8rposition, "R8contains": rule_R8contains, "R12cell": rule_R12cell, "R8resize_veccap": rule_R8resize_veccap, "R8collectid": rule_R8collectid, "R8index": rule_R8index, "subst": rule_subst,
+    "R8slice": rule_R8slice, "R7iter": rule_R7iter, "R8bitget": rule_R8bitget, "R8intonext": rule_R8intonext, "R8find": rule_R8find, "R8rposition": rule_R8rposition, "R8contains": rule_R8contains, "R12cell": rule_R12cell, "R8resize_veccap": rule_R8resize_veccap, "R8collectid": rule_R8collectid, "R8index": rule_R8index, "subst": rule_subst,
     "R7ref": rule_R7ref, "R6": rule_R6, "R16": rule_R16, "R14q": rule_R14q, "R7stack": rule_R7stack, "R18": rule_R18, "R8frozenindex": rule_R8frozenindex, "R7range": rule_R7range, "R14err": rule_R14err, "R7array": rule_R7array, "R17": rule_R17,
     "R13": rule_R13, "R14": rule_R14, "R2set": rule_R2set, "R8first": rule_R8first, "R7": rule_R7, "R10": rule_R10, "R11": rule_R11,
 }
@@ -2496,14 +2521,16 @@ def build_fn(src: Source, selector, opts, sections, emitter: Emitter, unit_rules
             elif key.strip() == "hint start":
                 # right after the opening brace of the body
                 add_insert(sig_end + 1, "\n" + val.rstrip("\n") + "\n")
-            elif key.startswith("hint afterloop ") or key.startswith("hint endloop ") or key.startswith("hint startloop "):
+            elif re.match(r"hint\??\s+(afterloop|endloop|startloop) ", key):
                 # right after the closing brace of a loop (afterloop) / as the last statements of its body (endloop);
                 # the loop is selected like in //@loop: regex on its header, k-th match
-                hm = re.match(r"hint (afterloop|endloop|startloop) /(.*)/\s*(\d+)?$", key)
+                hm = re.match(r"hint\??\s+(afterloop|endloop|startloop) /(.*)/\s*(\d+)?$", key)
                 if not hm:
                     raise ExtractError(f"bad hint directive `{key}`")
                 kk = int(hm.group(3) or 1)
                 hits = [lp for lp in lps if re.search(hm.group(2), m_text[lp[0]:lp[1]])]
+                if len(hits) < kk and key.startswith("hint?"):
+                    continue
                 if len(hits) < kk:
                     raise ExtractError(f"{selector}: loop /{hm.group(2)}/ #{kk} not found (lost anchor)")
                 cb_ = match_close(m_text, hits[kk - 1][1])
